@@ -169,6 +169,7 @@ func checkC04(c *Check) {
 	c04RecordedMeansHandedOver(c, "R11")
 	c04RejectReplyAsConfigured(c, "R12")
 	c04RewriteKeepsEveryResult(c, "R13")
+	c04FieldsWinOverDefaults(c, "R15")
 
 	// ---- R5 rewrite results are not overwritten while they are still being read
 	c.Rule("R5", "recipient rewriting: the list a rewriting loop appends to never shares storage with the list it is still iterating (a 1→N rewrite would overwrite addresses not yet routed)", 2)
